@@ -22,10 +22,10 @@ func init() {
 			"call graph and a fixed point over iterator-returning functions — or over a slice collected from one and not yet sorted) in every function reachable from the authorizers, " +
 			"encoders and decoders is enumerated and its body's effects are classified: order-free (insert keyed by the element, set insertion, delete, integer accumulation, " +
 			"uniform-constant exits/flags, pass-through to a consumer, append followed by a sort that dominates every later use) or order-sensitive (first-match return of an " +
-			"element-dependent value, ordered output, append without a sort, last-writer assignment). R14.1: no order-sensitive effect reaches an output; R14.2: each encoder's " +
+			"element-dependent value, ordered output, append without a sort, last-writer assignment, a branch decided by what earlier iterations accumulated). R14.1: no order-sensitive effect reaches an output; R14.2: each encoder's " +
 			"sort dominates its writes; R14.3: no formatted message embeds a pointer-like operand (heap address). Residual loops carry a per-function, per-effect justification " +
 			"frozen in the checker; anything unrecognised is undecided and fails.",
-		Assumptions: []string{"comparison functions passed to sorts are total orders on the sorted keys (ties are not analysed)", "errors returned by encoders/decoders are not outputs in the sense of the property"},
+		Assumptions: []string{"comparison functions passed to sorts are judged by shape (R14.4: lexicographic chain of symmetric comparisons, no ambiguous concatenations), not proved total", "errors returned by encoders/decoders are not outputs in the sense of the property"},
 		Run:         runC14,
 	})
 }
